@@ -62,7 +62,7 @@ def gen_op(rng, small=False):
             from . import c18_funcs as F
             return dict(t='call', f=f, args=[{'arr': [rng.choice(sorted(F._BASES)), rng.choice(F.ARR_VARIANTS)]}], kw=({} if rng.random() < 0.7 else {'w': rng.choice([1, 2])}))
         if f == 'f_scalar':
-            a = rng.choice([1, 2])
+            a = rng.choice([1, 2, 0, 1])
             form = rng.randrange(4)
             if form == 0:
                 return dict(t='call', f=f, args=[a], kw={})
@@ -124,7 +124,12 @@ def gen_case(rng, index, tier):
         else:
             sched = c16.gen_sched(rng)
         work = rng.choice([0, 2, 5, 9])
-        if rng.random() < 0.4:
+        if rng.random() < 0.25:
+            # a stalled node: one caller (often the one that holds the entry) runs only when nobody else can - time-outs and retries
+            # of the others, if there are any, play out against it
+            sched = dict(kind='starve', victim=rng.choice([-2, -2, rng.randrange(1, ncallers + 1)]), tape=[(rng.randint(1, 6) if rng.random() < 0.3 else 0) for _ in range(200)])
+            work = rng.choice([3, 5, 9])
+        elif rng.random() < 0.4:
             # staggered arrivals in lock step: the second caller arrives while the first computes, the third after the first is done
             sched = dict(kind='rr')
             stag = [0, rng.choice([2, 3, 4, 5, 6]), rng.choice([8, 10, 12, 14, 16, 18, 20, 24, 28])]
@@ -140,6 +145,14 @@ def gen_case(rng, index, tier):
         if v['t'] == 'call':
             if v['f'] == 'f_kw':
                 v['kw'][rng.choice(['b', 'c'])] = rng.choice([3, 7, 9])
+            elif v['f'] == 'f_scalar' and rng.random() < 0.5:
+                # an argument that is EQUAL for Python but another value: other numeric type, other sign of zero (result type / log line differ)
+                def other(x):
+                    return rng.choice([float(x), bool(x) if x in (0, 1) else float(x), -0.0 if x == 0 else float(x)])
+                if v['args']:
+                    v['args'][0] = other(v['args'][0])
+                elif 'x' in v['kw']:
+                    v['kw']['x'] = other(v['kw']['x'])
             elif v['f'] == 'f_scalar':
                 if v['kw'].get('y') is not None or len(v['args']) < 2:
                     v['kw'] = dict(v['kw'], y=rng.choice([3, 4]))
